@@ -91,7 +91,7 @@ def _jobs(tier, seed):
     for i, t in enumerate(pick):
         jobs.append({"kind": "ops", "table": t["table"], "order": t["order"], "origin": t["origin"], "rulelevel": t.get("rulelevel", False),
                      "name": "ops%s %s order %s" % (" rule-level" if t.get("rulelevel") else "", " ".join("%s:%d%s" % (o, pr, a[0]) for o, (pr, a) in sorted(t["table"].items())), "".join(x[0] for x in t["order"]))})
-    fam = gen.family(3, 3, limit=p["nmarks"] // 3, rng_seed=661) + gen.family(4, 2, nts=("S", "A", "B"), terms=gen.PLAIN_TERMS, limit=p["nmarks"] // 3, rng_seed=662) + \
+    fam = gen.ACCEPT_VS_EMPTY + gen.family(3, 3, limit=p["nmarks"] // 3, rng_seed=661) + gen.family(4, 2, nts=("S", "A", "B"), terms=gen.PLAIN_TERMS, limit=p["nmarks"] // 3, rng_seed=662) + \
         gen.idiom_family(limit=p["nmarks"] // 3, rng_seed=663)
     rng = random.Random(617)
     rng2 = random.Random(21000037 * (seed + 1))
